@@ -23,6 +23,11 @@ def run_property(prop, tier, seed, overrides=None, out=print, write=True):
         run.cur_rule = rid
         fn(run)
     run.cur_rule = None
+    if tier == "thorough" and overrides is None and write:
+        from . import selfcheck
+        run.cur_rule = "SELF"
+        selfcheck.run(prop, run)
+        run.cur_rule = None
     if not write:
         run.check_floors()
         return (1 if any(not o["ok"] for o in run.obs) else 0), run
